@@ -540,7 +540,7 @@ package gmars
 //@   requires simInv(s) && dataWf(data, s.m)
 //@   modifies s.warriors, s.warriorCount
 //@   ensures [C04] simInv(s) && s.warriorCount == old(s.warriorCount) + 1 && result.1 == nil && result.0 == s.warriors[old(s.warriorCount)]
-//@   ensures [C13] fresh(result.0) && result.0.state == WarriorAdded && fresh(result.0.data)
+//@   ensures [C13][C14] fresh(result.0) && result.0.state == WarriorAdded && fresh(result.0.data) && fresh(arr(result.0.data.Code))
 //@   ensures [C13] forall j :: 0 <= j && j < old(s.warriorCount) ==> s.warriors[j] == old(s.warriors[j])
 
 //@ func (*reportSim).AddWarrior
